@@ -109,13 +109,30 @@ func init() {
 		"encoding/csv.NewReader":     inCSVNewReader,
 		"(*encoding/csv.Reader).Read": inCSVRead,
 
-		"(*sync.WaitGroup).Add":  func(ip *Interp, fn *ssa.Function, a []Value) Value { return nil },
-		"(*sync.WaitGroup).Done": func(ip *Interp, fn *ssa.Function, a []Value) Value { return nil },
-		"(*sync.WaitGroup).Wait": func(ip *Interp, fn *ssa.Function, a []Value) Value { return nil },
+		"(*sync.WaitGroup).Add": func(ip *Interp, fn *ssa.Function, a []Value) Value {
+			*ip.wgCounter(a[0]) += int(ip.concInt(a[1]))
+			return nil
+		},
+		"(*sync.WaitGroup).Done": func(ip *Interp, fn *ssa.Function, a []Value) Value {
+			c := ip.wgCounter(a[0])
+			*c--
+			if *c < 0 {
+				ip.goPanic("sync: negative WaitGroup counter")
+			}
+			return nil
+		},
+		"(*sync.WaitGroup).Wait": func(ip *Interp, fn *ssa.Function, a []Value) Value {
+			c := ip.wgCounter(a[0])
+			ip.block(func() bool { return *c == 0 }, "WaitGroup.Wait")
+			return nil
+		},
 		"(*sync.Mutex).Lock":     func(ip *Interp, fn *ssa.Function, a []Value) Value { return nil },
 		"(*sync.Mutex).Unlock":   func(ip *Interp, fn *ssa.Function, a []Value) Value { return nil },
 
 		"runtime.NumCPU": func(ip *Interp, fn *ssa.Function, a []Value) Value {
+			if ip.numCPU > 0 {
+				return ip.p.T.Const(64, uint64(ip.numCPU))
+			}
 			return ip.p.T.Const(64, uint64(ip.pr.NumCPU))
 		},
 		"runtime.GOMAXPROCS": func(ip *Interp, fn *ssa.Function, a []Value) Value {
